@@ -112,12 +112,28 @@ def gen_case(seed):
         fates["loss"] = min(fates.get("loss", 0.0), 0.05)
         script.sort(key=lambda o: o["t"])
         pattern += "+spoofed-initial-then-packet-from-that-address"
+    r10 = random.Random("c13-bighello/%s" % seed)
+    if pattern in ("plain", "heavy-loss", "spoof") and r10.random() < 0.5:
+        # a ClientHello that spans three or more Initial packets (a long ALPN list), one of the middle packets lost or
+        # held back: the server acknowledges a gapped Initial space and probes it while it cannot answer yet — Initial
+        # packets that are ack-eliciting without carrying CRYPTO
+        for k in ("retry", "frontend_vn", "resume", "resume_forget"):
+            opts.pop(k, None)
+        n_names = r10.choice([30, 70, 200, 250])
+        opts["alpn"] = ["vf"] + ["proto-%03d-%s" % (i, "x" * 40) for i in range(n_names)]
+        opts["alpn_server"] = ["vf"]
+        forced = dict(fates.get("forced", {}))
+        forced["c2s:%d" % r10.choice([1, 1, 2])] = r10.choice(["drop", "late:0.3", "late:1.5"])
+        fates["forced"] = forced
+        pattern += "+big-client-hello-with-hole"
     if rng.random() < 0.4:
         # data written before the handshake completes (fills the congestion window as soon as keys exist)
         script.append({"t": 0.0, "side": "client", "op": "write", "sid": 40, "n": rng.choice([5000, 40000]), "fin": True})
         script.sort(key=lambda o: o["t"])
     r2 = random.Random("c13-0rtt/%s" % seed)
-    if r2.random() < 0.3:
+    if r2.random() < 0.3 and "big-client-hello" not in pattern:
+        # (a resumed ClientHello larger than 1024 bytes makes connect() itself raise BufferWriteError — tls.py serialises
+        # the hello without binder into a 1024-byte scratch buffer; local configuration, not network input: observation)
         # session resumption with 0-RTT: early client data (possibly a congestion window full of it) and a
         # server application that answers it before the handshake completes (0.5-RTT data) — the server
         # then has far more than 3x the received bytes to send to an address it has not validated yet
